@@ -142,7 +142,27 @@ func (g *pg) stmt(depth int) gen.Val {
 		if g.seenUse {
 			g.stats["redefinition-after-use"]++
 		}
-		return gen.L(append([]gen.Val{gen.S(g.op("defun")), gen.S(g.sym()), gen.L(gen.S("x"))}, g.bodyForms()...)...)
+		name := g.sym()
+		if g.n(0, 5, "qualified-defun") == 0 {
+			// (defun pkg:name ...) written in another package: the name is bound
+			// in pkg, the body runs with the package of the DEFINITION current
+			g.stats["qualified-defun"]++
+			name = g.pkg() + ":" + name
+		}
+		if g.n(0, 3, "looping") == 0 {
+			// a function that loops by a self tail call (0-3 turns, by its
+			// argument): its body runs in the defining package on every turn and
+			// the caller's package is current again after the call
+			g.stats["defun-tail-loop"]++
+			loop := gen.L(gen.S("lisp:if"), gen.L(gen.S("lisp:<"), gen.S("x"), gen.I(1)), g.body(),
+				gen.L(gen.S(name), gen.L(gen.S("lisp:-"), gen.S("x"), gen.I(1))))
+			var lead []gen.Val
+			if g.n(0, 2, "loop-lead") == 0 {
+				lead = append(lead, g.ref())
+			}
+			return gen.L(append(append([]gen.Val{gen.S(g.op("defun")), gen.S(name), gen.L(gen.S("x"))}, lead...), loop)...)
+		}
+		return gen.L(append([]gen.Val{gen.S(g.op("defun")), gen.S(name), gen.L(gen.S("x"))}, g.bodyForms()...)...)
 	case 9:
 		g.stats["defmacro"]++
 		// the expansion mentions an UNQUALIFIED name: it resolves where the
